@@ -36,10 +36,54 @@ class ManagerStub(object):
         return R()
 
     def level_prekeys(self, force=False):
-        return []
+        self.calls.append(("level_prekeys", force))
+        return [StubPreKey(11), StubPreKey(12)] if force else []
+
+    def generate_signed_prekey(self):
+        self.calls.append(("generate_signed_prekey",))
+        return StubPreKey(1, signed=True)
+
+    def load_latest_signed_prekey(self, generate=False):
+        return StubPreKey(1, signed=True)
+
+    def set_prekeys_as_sent(self, prekeys):
+        self.calls.append(("set_prekeys_as_sent", [p.getId() for p in prekeys]))
+
+    @property
+    def identity(self):
+        return StubKeyPair()
 
     def load_unsent_prekeys(self):
         return []
+
+
+class StubPub(object):
+    def serialize(self):
+        return b"\x05" + b"\x07" * 32
+
+
+class StubKeyPair(object):
+    def getPublicKey(self):
+        return StubPub()
+
+
+class StubPreKey(object):
+    def __init__(self, i, signed=False):
+        self.i = i
+
+    def getId(self):
+        return self.i
+
+    def getKeyPair(self):
+        return StubKeyPair()
+
+    def getSignature(self):
+        return b"\x09" * 64
+
+
+class StubProfile(object):
+    username = "4915900000001"
+    axolotl_manager = None
 
 
 class Envelope(object):
@@ -93,6 +137,7 @@ def build(groups=True, media=True, privacy=True, profiles=True, enc=True, top=No
     st = YowStack(layers, reversed=False)
     bottom = st.getLayer(0)
     app = st.getLayer(len(layers) - 1)
+    st.setProp("profile", StubProfile())
     mgr = ManagerStub(sessions)
     if enc:
         st.getLayer(1)._manager = mgr
